@@ -66,8 +66,10 @@ func evalC11(c *engine.Case) engine.Verdict {
 		}
 	}
 	targetUses := 0
+	var stepSc *engine.Scenario // the scenario of the current step (inputs after drops)
 	argsFor := func(st C11Step) []argmapper.Arg {
 		s2 := *sc
+		stepSc = &s2
 		s2.Inputs = nil
 		drop := map[int]bool{}
 		for _, d := range st.Drop {
@@ -189,6 +191,27 @@ func evalC11(c *engine.Case) engine.Verdict {
 			o := w.Call(target, args)
 			if !check(si, []engine.Outcome{o}) {
 				return v
+			}
+			// C02 holds for run-once targets too: a call whose arguments
+			// cannot be derived is refused, whatever an earlier call memoized
+			// (a run-once CONVERTER that has already run supplies its memoized
+			// outputs without needing its inputs again: C11)
+			memo := *stepSc
+			memo.Convs = append([]engine.FuncSpec(nil), stepSc.Convs...)
+			for _, ev := range w.EventsSince(0) {
+				for i := range memo.Convs {
+					if memo.Convs[i].Once && memo.Convs[i].ID == ev.Func {
+						memo.Convs[i].In = nil
+					}
+				}
+			}
+			underivable := !engine.Analyze(&memo, engine.RPlus).Derivable
+			if o.Err == nil && o.Panic == "" && underivable {
+				v.Failf("step %d: the call succeeded although a parameter of the target cannot be derived from what this call was given (the target's own memoized result?)", si)
+				return v
+			}
+			if sc.Target.Once && underivable {
+				v.Class("underivable-call-on-run-once-target")
 			}
 		case "redefine":
 			before := w.NumEvents()
